@@ -189,6 +189,10 @@ def main(argv=None):
             return 2
 
     os.makedirs(EVID, exist_ok=True)
+    if not a.no_evidence:
+        for fn in os.listdir(EVID):
+            if fn.startswith(prop + ".replay"):
+                os.remove(os.path.join(EVID, fn))
     for v in listed:
         k = open_keys[v.key()]
         print("KNOWN-FINDING: property=%s %s [%s %s :: %s]" % (
